@@ -923,7 +923,107 @@ def rule_pop_zero(model):
     return r
 
 
-RULES_PLAIN = [rule_balance, rule_ownership, rule_pop_zero]
+class _CS(BaseState):
+    __slots__ = ('n', 'trace', 'cur_exc')
+
+    def __init__(self, n=0):
+        self.n = n
+        self.trace = ()
+        self.cur_exc = None
+
+    def key(self):
+        return self.n
+
+    def copy(self):
+        c = _CS(self.n)
+        c.trace = self.trace
+        return c
+
+
+class _PushCount(Domain):
+    """Counts the entries TemplateDict._push adds to the stack list."""
+
+    def __init__(self, fi, param):
+        self.fi = fi
+        self.param = param
+        self.other = []      # other mutations of the stack list
+        self.foreign = []    # appended value is not the parameter
+        self.stack = set()
+
+    def _is_stack(self, e):
+        if isinstance(e, ast.Attribute) and isinstance(e.value, ast.Name) \
+                and e.value.id == 'self':
+            self.stack.add(e.attr)
+            return True
+        return isinstance(e, ast.Name) and e.id in self.aliases
+
+    aliases = frozenset()
+
+    def effects(self, stmt, st):
+        n = st
+        for c in ast.walk(stmt):
+            if isinstance(c, ast.Assign) and isinstance(
+                    c.value, ast.Attribute) and isinstance(
+                    c.value.value, ast.Name) and c.value.value.id == 'self' \
+                    and isinstance(c.targets[0], ast.Name):
+                self.aliases = self.aliases | {c.targets[0].id}
+            if isinstance(c, ast.Call) and isinstance(c.func, ast.Attribute) \
+                    and self._is_stack(c.func.value):
+                if c.func.attr == 'append' and len(c.args) == 1:
+                    n = n.copy()
+                    n.n = min(n.n + 1, 3)
+                    if not (isinstance(c.args[0], ast.Name) and
+                            c.args[0].id == self.param):
+                        self.foreign.append(c)
+                elif c.func.attr in ('insert', 'extend', 'pop', 'remove',
+                                     'clear', '__setitem__', '__iadd__'):
+                    self.other.append(c)
+            if isinstance(c, (ast.AugAssign,)) and self._is_stack(c.target):
+                self.other.append(c)
+            if isinstance(c, ast.Subscript) and isinstance(
+                    c.ctx, (ast.Store, ast.Del)) and self._is_stack(c.value):
+                self.other.append(c)
+        return n
+
+
+def rule_push_one(model):
+    r = RuleResult('C08.R5', 'the stack primitive adds exactly one entry, '
+                   'the object it is given, on every path: every tag pairs '
+                   'an unconditional push with an unconditional pop, so a '
+                   'push that sometimes adds nothing makes the paired pop '
+                   'remove an entry of the enclosing block')
+    fi = model.func('_DocumentTemplate', 'TemplateDict._push')
+    ps = fi.params()
+    if len(ps) < 2:
+        raise AnalysisError('TemplateDict._push signature changed')
+    dom = _PushCount(fi, ps[1])
+    outs = Interp(dom).run(fi.node, _CS())
+    exits = [o for o in outs if o.kind in (NORMAL, RETURN)]
+    if not exits:
+        raise AnalysisError('C08.R5: TemplateDict._push has no normal exit')
+    for o in exits:
+        what = norm(o.node) if o.node is not None else 'end of function'
+        r.instance(fi.where, what, f'{o.state.n} entr'
+                   f'{"y" if o.state.n == 1 else "ies"} added')
+        if o.state.n != 1:
+            r.finding(fi.where, f'exit with {o.state.n} entries added: '
+                      f'{what}', f'_push leaves through `{what}` having '
+                      f'added {o.state.n} entries to the namespace stack: '
+                      'the pop every block tag pairs with its push then '
+                      'removes an entry that belongs to the enclosing '
+                      'block or the caller', node=o.node or fi.node, ctx=fi,
+                      path=o.state.trace)
+    for c in dom.other:
+        r.finding(fi.where, c, '_push modifies the stack list other than '
+                  'by appending one entry', node=c, ctx=fi)
+    for c in dom.foreign:
+        r.finding(fi.where, c, '_push appends something other than the '
+                  'object it was given', node=c, ctx=fi)
+    r.floor = 1
+    return r
+
+
+RULES_PLAIN = [rule_balance, rule_ownership, rule_pop_zero, rule_push_one]
 RULES = [_inl(r_) for r_ in RULES_PLAIN] if INLINED_VIEW else RULES_PLAIN
 EXPLANATION = (
     'Structured path-sensitive abstract interpretation (stack depth, '
